@@ -186,7 +186,13 @@ impl Storage {
         //
         if self.file_exists(issuance_file).await {
             if let Ok(lines) = self.io_interface.read_value(issuance_file).await {
-                let mut contents = String::from_utf8(lines).unwrap();
+                let mut contents = match String::from_utf8(lines) {
+                    Ok(contents) => contents,
+                    Err(_) => {
+                        error!("issuance file is not valid text");
+                        return vec![];
+                    }
+                };
                 contents = contents.trim_end_matches('\r').to_string();
                 let lines: Vec<&str> = contents.split('\n').collect();
 
@@ -224,6 +230,10 @@ impl Storage {
     /// convert an issuance expression to slip
     fn convert_issuance_into_slip(&self, line: &str) -> Option<Slip> {
         let entries: Vec<&str> = line.split_whitespace().collect();
+        if entries.len() < 3 {
+            error!("couldn't parse line : {:?}", line);
+            return None;
+        }
 
         let result = entries[0].parse::<u64>();
 
@@ -247,6 +257,10 @@ impl Storage {
 
         match publickey_result {
             Ok(val) => {
+                if val.len() != 33 {
+                    error!("public key in issuance line is not 33 bytes : {:?}", line);
+                    return None;
+                }
                 let mut publickey_array: SaitoPublicKey = [0u8; 33];
                 publickey_array.copy_from_slice(&val);
 
@@ -254,7 +268,10 @@ impl Storage {
                 let slip_type = match entries[2].trim_end_matches('\r') {
                     "VipOutput" => SlipType::Normal,
                     "Normal" => SlipType::Normal,
-                    _ => panic!("Invalid slip type"),
+                    _ => {
+                        error!("invalid slip type in issuance line : {:?}", line);
+                        return None;
+                    }
                 };
 
                 let mut slip = Slip::default();
